@@ -45,6 +45,11 @@ class ShutdownAnalysis(PathAnalysis):
 
     track_cancel = False
 
+    def absorbing_scope(self, s) -> bool:
+        # deadlines of (shielded) scopes around the shutdown are R2's own subject: a shield's deadline must outlast
+        # the bounded ladder, in which case it never fires inside it
+        return False
+
     def raises(self, node, state):
         tags = set()
         hv = tuple(h.name for h in self.handler_stack if h.name)
@@ -239,6 +244,48 @@ def check(P: Project, R: Report) -> None:
             ha, ho = run_paths(ast.Module(body=h.body, type_ignores=[]), fallible=False)
             ok = not (ho.normal or ho.ret or ho.brk or ho.cont) and {tg for _s, tg, _n in ho.exc} <= {"<reraise>"}
             R.ob("R4", "handler around open_process re-raises", ok, f"{rel}:{h.lineno}", "a spawn failure would be swallowed and the context entered without a child", sample="R4 __aenter__: except Exception → log → raise")
+
+    # ------------------------------------------------------------------ R7: no suspension between the spawn and handing the context over
+    R.rule("R7", "entering: once open_process has returned, __aenter__ either returns without suspending (the only await allowed is entering the task group it has just created, which does not yield) or a cancellation raised at any later await passes the terminate step before it leaves __aenter__ — `async with` never calls __aexit__ for a failed __aenter__, so nothing else would reap the child")
+    tg_names = set()
+    for s_ in walk_local(ae.node):
+        if isinstance(s_, ast.Assign) and isinstance(s_.value, ast.Call) and call_name(s_.value).split(".")[-1] == "create_task_group":
+            tg_names |= {ast.unparse(t) for t in s_.targets}
+
+    class EnterAnalysis(PathAnalysis):
+        def raises(self, node, state):
+            tags = set()
+            if "spawn" not in state.events and not any(call_name(c).endswith("open_process") for c in calls_in_order(node)):
+                return tags
+            for aw in [n for n in ast.walk(node) if isinstance(n, ast.Await)]:
+                v = aw.value
+                if isinstance(v, ast.Call) and call_name(v).endswith("open_process"):
+                    continue  # cancelled inside the spawn itself: anyio does not hand out a process
+                if isinstance(v, ast.Call) and call_name(v).endswith(".__aenter__") and ast.unparse(v.func.value) in tg_names:
+                    continue  # TaskGroup.__aenter__ enters a cancel scope and returns: no checkpoint
+                if any(_shielded_with(w) for w in self.with_stack):
+                    continue
+                tags.add(CANCEL)
+            return tags
+
+    def eev(call, st, an2):
+        nm = call_name(call)
+        if nm.endswith("open_process"):
+            return "spawn"
+        if nm in (f"self.{term.name}", "self.process.kill", "self.process.terminate"):
+            return "terminate"
+        return None
+
+    ea, eo = run_paths(ae.node, event_of=eev, cls=EnterAnalysis, exc_after_events=True)
+    n_after = 0
+    for st, tag, node in eo.exc:
+        if tag != CANCEL or "spawn" not in st.events:
+            continue
+        n_after += 1
+        R.ob("R7", "a cancellation between the spawn and the return of __aenter__ terminates the child", "terminate" in st.events, f"{rel}:{getattr(node, 'lineno', 0)}",
+             f"`{ast.unparse(node)[:60]}` can be cancelled (outer scope, timeout around the context) after the child was spawned; __aenter__ then raises, __aexit__ is never called and the child keeps running")
+    R.ob("R7", "__aenter__ was analysed from the spawn to its return", any("spawn" in st.events for st, _n in eo.ret), ae.where, f"{n_after} cancellable awaits after the spawn",
+         sample=f"R7 __aenter__: {n_after} cancellable await(s) between open_process and return")
 
     # ------------------------------------------------------------------ R5
     fabricated = []
